@@ -41,6 +41,10 @@ def _child_verify(i):
         "sha256": res.fs.sha256, "lines": [res.fs.lineno, res.fs.end_lineno], "file": res.fs.file,
         "vacuity": res.vacuity, "stats": res.stats, "obligations": [], "assumes": c.assumes, "crash": False,
     }
+    eng0 = getattr(res, "engine", None)
+    if eng0 is not None:
+        ghost_kinds = {g: kind_json(v.kind) for g, v in eng0.entry_state.ghost.items() if hasattr(v, "kind") and v.kind.smt}
+        out["fuzz_job"] = fuzz_job(c, res.fs, schema.SCHEMA, eng0.accessed_param_keys, ghost_kinds, seed, 20)
     for o in res.obligations:
         j = o.to_json()
         if o.status in ("failed",) and o.model is not None:
@@ -63,6 +67,90 @@ def _child_verify(i):
                 j["witness_error"] = traceback.format_exc()[-1500:]
         out["obligations"].append(j)
     return out
+
+
+def kind_json(k):
+    from .kinds import INT, BOOL, STR, REAL, Ref, Seq, SetK, Map, Opt
+    if k == INT:
+        return "int"
+    if k == BOOL:
+        return "bool"
+    if k == STR:
+        return "str"
+    if k == REAL:
+        return "float"
+    if isinstance(k, Ref):
+        return ["ref", k.cls]
+    if isinstance(k, Seq):
+        return ["seq", kind_json(k.elem)]
+    if isinstance(k, SetK):
+        return ["set", kind_json(k.elem)]
+    if isinstance(k, Map):
+        return ["map", kind_json(k.key), kind_json(k.val)]
+    if isinstance(k, Opt):
+        return ["opt", kind_json(k.base)]
+    return "py"
+
+
+def schema_json(schema):
+    out = {}
+    for cls, sc in schema.items():
+        out[cls] = {"bases": sc.get("bases", []), "fields": {f: kind_json(k) for f, k in sc.get("fields", {}).items()},
+                    "nonnull": sc.get("nonnull", [])}
+    return out
+
+
+def source_literals(fs, contract):
+    import ast as _ast
+    lits = []
+    for node in _ast.walk(fs.node):
+        if isinstance(node, _ast.Constant) and isinstance(node.value, str) and len(node.value) < 40 and "\n" not in node.value:
+            lits.append(node.value)
+    for e in list(contract.requires) + [x[1] for x in contract.ensures] + [w for w in contract.raises.values() if w]:
+        try:
+            for node in _ast.walk(_ast.parse(e.strip(), mode="eval")):
+                if isinstance(node, _ast.Constant) and isinstance(node.value, str) and len(node.value) < 40:
+                    lits.append(node.value)
+        except SyntaxError:
+            pass
+    return list(dict.fromkeys(lits))
+
+
+def fuzz_job(c, fs, schema, param_keys, ghost_kinds, seed, budget_s):
+    from .kinds import Kind, VNone
+    params = {}
+    for name, kind in c.params.items():
+        nullable = False
+        if isinstance(kind, tuple):
+            kind, nullable = kind[0], kind[1] == "nullable"
+        if isinstance(kind, Kind):
+            params[name] = {"kind": kind_json(kind), "nullable": nullable}
+        else:
+            params[name] = {"kind": "none", "nullable": True}
+    return {
+        "repo": repo_path(),
+        "contract": {"name": c.name, "target": c.target, "requires": c.requires, "ensures": [list(e) for e in c.ensures],
+                     "raises": c.raises, "raises_only_if": c.raises_only_if, "call": native_call(c, fs), "params": params},
+        "schema": schema_json(schema), "literals": source_literals(fs, c), "param_keys": sorted(param_keys),
+        "stubs": {k: [v[1], kind_json(v[2]), v[3]] for k, v in c.stubs.items()},
+        "ghost": ghost_kinds, "seed": seed, "budget_s": budget_s,
+    }
+
+
+def run_fuzz(job, path):
+    os.makedirs(os.path.dirname(path), exist_ok=True)
+    with open(path, "w") as f:
+        json.dump(job, f, indent=1, default=str)
+    env = dict(os.environ, VERIF_REPO=repo_path(), PYTHONPATH=repo_path())
+    try:
+        p = subprocess.run([VENV_PY, os.path.join(ROOT, "replay", "fuzz.py"), path], capture_output=True, text=True,
+                           timeout=job.get("budget_s", 20) + 120, env=env, cwd=ROOT)
+    except subprocess.TimeoutExpired:
+        return {"found": False, "error": "fuzz timed out"}
+    for line in p.stdout.splitlines():
+        if line.startswith("FUZZ-RESULT "):
+            return json.loads(line[len("FUZZ-RESULT "):])
+    return {"found": False, "error": (p.stdout + p.stderr)[-2000:]}
 
 
 def native_call(c, fs):
@@ -143,6 +231,7 @@ class PropertyRun:
         self.bounded = []
         self.extra = {}
         self.seed = int(os.environ.get("VERIF_SEED", "0") or 0)
+        self._fuzzed = {}
 
     def add_e1(self, results, expected):
         known = [k for k in load_json(os.path.join(ROOT, "known_findings.json"), {"findings": []})["findings"]
@@ -185,21 +274,69 @@ class PropertyRun:
                                    "note": "model could not be reified", "detail": o.get("detail"),
                                    "witness_error": o.get("witness_error")}, f, indent=1)
                 confirmed = bool(verdict and verdict.get("status") == "ok" and verdict.get("violated"))
+                if not confirmed and r.get("fuzz_job") and r["contract"] not in self._fuzzed:
+                    # bounded native search on the real function for a concrete counterexample of this contract
+                    job = dict(r["fuzz_job"], budget_s=30 if self.tier == "quick" else 180)
+                    fr = run_fuzz(job, path + ".fuzzjob")
+                    self._fuzzed[r["contract"]] = fr
+                    rec["fuzz"] = fr.get("stats") or fr.get("error")
+                fr = self._fuzzed.get(r["contract"])
+                if not confirmed and fr and fr.get("found"):
+                    w = fr["witness"]
+                    w["note"] = ("found by bounded native search after the deductive check produced a counter-model "
+                                 "that did not replay; failed obligation: " + o["name"])
+                    w["failed_obligation"] = o["name"]
+                    path = os.path.join(ROOT, "replays", self.pid, r["contract"].replace("/", "_").replace(" ", "_") + ".counterexample.json")
+                    with open(path, "w") as f:
+                        json.dump(w, f, indent=1, default=str)
+                    verdict = w.get("replay_verdict")
+                    confirmed = True
                 kf = match_known(known, o["name"], o.get("witness"), verdict)
                 if kf is not None:
                     self.known.append((kf, o["name"]))
                     rec["known_finding"] = kf["id"]
                     continue
-                was_proved = o["name"] in expected
+                was_proved = expected is None or o["name"] in expected
                 if confirmed:
-                    self.violations.append((o["name"], path, ""))
+                    if not any(v[1] == path for v in self.violations):
+                        self.violations.append((o["name"], path, ""))
                     annotate(path, verdict, "confirmed by native replay")
-                elif was_proved or expected is None:
+                elif was_proved:
                     annotate(path, verdict, "obligation has a counter-model but no failing input was reproduced natively")
                     self.violations.append((o["name"], path, " no-failing-input-found"))
                 else:
+                    annotate(path, verdict, "counter-model not confirmed natively; obligation not recorded as proved before")
                     self.undecided.append({"obligation": o["name"], "reason": "counter-model not confirmed natively",
                                            "replay": verdict})
+
+    def crosscheck(self, results, budget_s):
+        """E3: the contracts evaluated natively on generated inputs (tested, not proved). A contract that fails
+        natively although its obligations were discharged reveals an encoding gap: checker error, not a violation."""
+        from concurrent.futures import ThreadPoolExecutor
+        jobs = [(r["contract"], dict(r["fuzz_job"], budget_s=budget_s)) for r in results if r.get("fuzz_job") and not r["error"]]
+
+        def one(item):
+            name, job = item
+            path = os.path.join(ROOT, "replays", self.pid, "crosscheck_" + name.replace("/", "_") + ".fuzzjob")
+            return name, run_fuzz(job, path), path
+        with ThreadPoolExecutor(max_workers=12) as ex:
+            outs = list(ex.map(one, jobs))
+        self.extra["cross_check"] = []
+        for name, fr, path in outs:
+            st = fr.get("stats", {})
+            self.extra["cross_check"].append({"contract": name, "found": fr.get("found"), "checked": st.get("checked"),
+                                              "rejected_by_requires": st.get("precondition_rejected"),
+                                              "outcomes": st.get("outcomes"), "error": fr.get("error") or st.get("first_error")})
+            if fr.get("found"):
+                wpath = path.replace(".fuzzjob", ".json")
+                with open(wpath, "w") as f:
+                    json.dump(fr["witness"], f, indent=1, default=str)
+                proved = all(o["status"] == "proved" for o in self.obligations if o["name"].startswith(name + "."))
+                msg = f"native cross-check of {name} found a contract violation ({fr['witness'].get('obligation')}) see {wpath}"
+                if proved:
+                    self.errors.append("encoding gap: " + msg)
+                else:
+                    print("CROSSCHECK: " + msg)
 
     def finish(self, level, explanation, trusted_base, assumptions, undecided_clauses, checker_cmd, extra=None):
         n_ob = len(self.obligations)
@@ -229,6 +366,7 @@ class PropertyRun:
             evidence["coverage"]["rule"] = "; ".join(b.get("rule", "") for b in self.bounded)
         if extra:
             evidence["coverage"].update(extra)
+        evidence["coverage"].update(self.extra)
         os.makedirs(os.path.join(ROOT, "evidence"), exist_ok=True)
         with open(os.path.join(ROOT, "evidence", f"{self.pid}.json"), "w") as f:
             json.dump(evidence, f, indent=1, default=str)
